@@ -44,6 +44,49 @@ func (e *wmEngine) Gen(r *hlib.Rand, tier string) []string {
 		}
 	}
 	lastDone := uint64(0)
+	// window boundaries: settle the mark at m, then begin an index exactly 65536*2^k (-1..+2) ahead of
+	// it, alone or as the last element of a batch whose first elements are not yet published.  These
+	// are whole calls: a rebuild is cheap, so they are part of the quick tier.
+	if r.Chance(35) {
+		m := uint64(r.Intn(4))
+		if r.Chance(20) {
+			m = uint64(50 + r.Intn(100))
+		}
+		for i := uint64(1); i <= m; i++ {
+			ops = append(ops, fmt.Sprintf("wm.begin %d", i), fmt.Sprintf("wm.done %d", i))
+		}
+		k := uint(r.Intn(2))
+		if r.Chance(15) {
+			k = 2
+		}
+		far := m + (uint64(65536) << k) + uint64(r.Intn(4)) - 1
+		switch r.Intn(4) {
+		case 0, 1:
+			ops = append(ops, fmt.Sprintf("wm.begin %d", far))
+			open = append(open, far)
+			held[far] = true
+		case 2:
+			a := m + 2 + uint64(r.Intn(8))
+			ops = append(ops, fmt.Sprintf("wm.beginmany %d,%d,%d", a, a+1, far))
+			open = append(open, a, a+1, far)
+			held[a], held[a+1], held[far] = true, true, true
+		default:
+			if tier == "thorough" || r.Chance(30) {
+				// scheduled variant: Begin(a) has counted but not published when the far index rebuilds
+				a := m + 2
+				ops = append(ops, fmt.Sprintf("wm.spawn 0 begin %d", a), "wm.step 0", "wm.step 0", // parked at wm.begin.mid
+					fmt.Sprintf("wm.begin %d", far), "wm.step 0", "wm.step 0", "wm.step 0", "wm.step 0", "wm.step 0", "wm.step 0")
+				open = append(open, a, far)
+				nextTid = 1
+			} else {
+				ops = append(ops, fmt.Sprintf("wm.beginmany %d,%d", m+1, far))
+				open = append(open, m+1, far)
+				held[m+1], held[far] = true, true
+			}
+		}
+		last = far
+		ops = append(ops, fmt.Sprintf("wm.wait %d", far))
+	}
 	beginIdx := func() uint64 {
 		x := r.Intn(100)
 		switch {
@@ -83,6 +126,29 @@ func (e *wmEngine) Gen(r *hlib.Rand, tier string) []string {
 			// pending count holds the mark or not (fact wm.holdsAtDone); outside C32's spec domain
 			ops = append(ops, fmt.Sprintf("wm.begin %d", lastDone))
 			open = append(open, lastDone)
+		case x < 13:
+			// a sorted batch
+			a := beginIdx()
+			if a > last+1000 {
+				a = last + 1
+			}
+			b := a + 1 + uint64(r.Intn(3))
+			ops = append(ops, fmt.Sprintf("wm.beginmany %d,%d", a, b))
+			open = append(open, a, b)
+			held[a], held[b] = true, true
+			if b > last {
+				last = b
+			}
+		case x < 16 && len(open) >= 2:
+			a, b := open[0], open[1]
+			if a > b {
+				a, b = b, a
+			}
+			ops = append(ops, fmt.Sprintf("wm.donemany %d,%d", a, b))
+			delete(held, a)
+			delete(held, b)
+			lastDone = b
+			open = open[2:]
 		case x < 30:
 			idx := beginIdx()
 			ops = append(ops, fmt.Sprintf("wm.begin %d", idx))
@@ -241,6 +307,39 @@ func (e *wmEngine) Exec(ops []string) []string {
 			} else {
 				nDone[idx]++
 				w.Done(idx)
+			}
+			wholeCall.Store(false)
+			out[i] = reply("done")
+		case (f[0] == "wm.beginmany" || f[0] == "wm.donemany") && len(f) == 2:
+			var idxs []uint64
+			bad := false
+			if f[1] != "-" {
+				for _, x := range strings.Split(f[1], ",") {
+					v, err := strconv.ParseUint(x, 10, 64)
+					if err != nil {
+						bad = true
+					}
+					idxs = append(idxs, v)
+				}
+			}
+			if bad {
+				out[i] = "bad-op"
+				continue
+			}
+			wholeCall.Store(true)
+			if f[0] == "wm.beginmany" {
+				du := w.DoneUntil()
+				for _, idx := range idxs {
+					if idx > du { // a Begin at or below the mark is outside the property's domain
+						nBegun[idx]++
+					}
+				}
+				w.BeginMany(idxs)
+			} else {
+				for _, idx := range idxs {
+					nDone[idx]++
+				}
+				w.DoneMany(idxs)
 			}
 			wholeCall.Store(false)
 			out[i] = reply("done")
